@@ -259,6 +259,23 @@ def analyze(run: Any) -> dict[str, list[str]]:  # noqa: C901
                 V["C01"].append(f"task {T} started running after its group {grp} block had ended")
         elif kind == "started":
             m.tasks[a[0]]["started"] = True
+            m.tasks[a[0]]["nstarted"] = m.tasks[a[0]].get("nstarted", 0) + 1
+        elif kind == "started-refused":
+            info = m.tasks.get(a[0], {})
+            # a repeated started() is an error, unless the start() caller has been cancelled meanwhile
+            if len(a) > 1 and a[1]:
+                V["C07"].append(f"started() of task {a[0]} raised RuntimeError although the caller of start() "
+                                f"had been cancelled")
+            if info.get("via_start") and info.get("nstarted", 0) == 0:
+                V["C07"].append(f"started() of task {a[0]} raised RuntimeError although it had not been "
+                                f"called successfully before")
+        elif kind == "failat":
+            L, T, timeout, caught = a
+            d = m.sc[L]
+            due = d["deadline"] is not None and now >= d["deadline"]
+            if bool(timeout) != (bool(caught) and due):
+                V["C06"].append(f"fail_after scope {L}: TimeoutError raised={timeout}, cancelled_caught={caught}, "
+                                f"deadline={d['deadline']}, now={now}")
         elif kind == "finish":
             T, c = a
             if T in m.tasks and T != 0:
@@ -385,6 +402,10 @@ def analyze(run: Any) -> dict[str, list[str]]:  # noqa: C901
             V["C02"].append(f"group {G} raised {c}; non-cancellation exceptions raised by body/children: "
                             f"{sorted(expected.elements())}")
         body_cancels = [x for x in code_leaves(g["body"] or "-") if is_cancel_code(x)]
+        for u in g["children"]:
+            fin = m.tasks[u]["finish"] or "-"
+            if fin.startswith("g:"):  # a user-made group raised by a child keeps its own leaves
+                body_cancels += [x for x in code_leaves(fin) if is_cancel_code(x)]
         if c.startswith("g:"):
             extra = Counter(x for x in got_leaves if is_cancel_code(x)) - Counter(body_cancels)
             if extra:
